@@ -99,6 +99,14 @@ func (g *Gen) conditional() Step {
 			Idx: g.pick([]string{"zero", "cur", "cur", "stale"}), Text2: g.pick([]string{"zero", "cur", "cur", "stale"}), Text: g.pick([]string{"d1", "d2"})}
 	default:
 		id := 1 + r.IntN(3)
+		if simkit.Chance(r, 35) {
+			// two tokens in one conditional batch, each with its own index
+			id2 := id%3 + 1
+			sym := func() string { return g.pick([]string{"zero", "cur", "cur", "stale", "future"}) }
+			return Step{Op: "acl.token.batch-cas", Ops: []Step{
+				{ID: TokenUUID(id), Text: SecretUUID(id), Idx: sym(), Text2: g.pick([]string{"a", "b", "c"})},
+				{ID: TokenUUID(id2), Text: SecretUUID(id2), Idx: sym(), Text2: g.pick([]string{"a", "b", "c"})}}}
+		}
 		return Step{Op: "acl.token.set", ID: TokenUUID(id), Text: SecretUUID(id), Idx: idx, Text2: g.pick([]string{"a", "b"})}
 	}
 }
@@ -342,6 +350,12 @@ func (C10) execute(p *Plan, r *simkit.Run) *simkit.Violation {
 	}
 	for i, s := range p.Steps {
 		r.Steps++
+		if s.Op == "acl.token.batch-cas" {
+			if vi := c.judgeTokenBatch(i, s, r, mk); vi != nil {
+				return vi
+			}
+			continue
+		}
 		v := c.verdict(s)
 		if !v.conditional || s.Fault != "" {
 			s.Fault = ""
@@ -394,5 +408,56 @@ func (C10) execute(p *Plan, r *simkit.Run) *simkit.Violation {
 		}
 	}
 	r.Nontrivial = len(c.Log) >= 3
+	return nil
+}
+
+
+// judgeTokenBatch: a conditional batch of tokens writes exactly the tokens whose own index matches.
+func (c *Cluster) judgeTokenBatch(i int, s Step, r *simkit.Run, mk func(int, Step, string, string, string) *simkit.Violation) *simkit.Violation {
+	st := c.L.State()
+	type exp struct {
+		id      string
+		matched bool
+		cur     uint64
+		desc    string
+	}
+	var exps []exp
+	for _, o := range s.Ops {
+		var cur uint64
+		if _, ex, _ := st.ACLTokenGetByAccessor(nil, o.ID, nil); ex != nil {
+			cur = ex.ModifyIndex
+		}
+		exps = append(exps, exp{id: o.ID, cur: cur, matched: setCAS(cur != 0, cur, resolveIdx(o.Idx, cur)), desc: o.Text2})
+	}
+	nlog := len(c.Log)
+	out := c.Do(s)
+	if c.Fatal != nil {
+		return mk(i, s, "panic", "apply-does-not-panic", c.Fatal.Error())
+	}
+	if len(c.Log) == nlog {
+		return nil
+	}
+	idx := c.Log[len(c.Log)-1].Index
+	if _, refused := out.Resp.(error); refused {
+		// the batch as a whole was refused (a token in it is invalid): then nothing of it is written
+		for k := range exps {
+			exps[k].matched = false
+		}
+	}
+	for k, e := range exps {
+		_, now, _ := c.L.State().ACLTokenGetByAccessor(nil, e.id, nil)
+		written := now != nil && now.ModifyIndex == idx
+		r.Hit(fmt.Sprintf("probe.cas.acl.token.batch.matched=%v", e.matched))
+		desc := fmt.Sprintf("token %d of the batch (%s): index was %d, matched=%v, written=%v", k, e.id, e.cur, e.matched, written)
+		if e.matched && !written {
+			return mk(i, s, "cas-dishonest", "matched-write-is-applied", desc)
+		}
+		if !e.matched && written {
+			return mk(i, s, "cas-dishonest", "unmatched-write-changes-nothing", desc)
+		}
+		if !e.matched && ((now == nil) != (e.cur == 0) || (now != nil && now.ModifyIndex != e.cur)) {
+			return mk(i, s, "cas-dishonest", "unmatched-write-changes-nothing", desc+" (the token changed)")
+		}
+	}
 	return nil
 }
